@@ -574,6 +574,8 @@ func (e *Env) evalCall(n *ast.CallExpr) Term {
 			e.fail(n, "%s(%d, %d): index out of range", name, k, i)
 		}
 		return list[i]
+	case "allocmark":
+		return e.st.alloc
 	case "allocatedid":
 		return lt(e.eval(n.Args[0]), e.st.alloc)
 	case "freshid":
@@ -796,6 +798,45 @@ type LocSet struct {
 	Ghost  bool // a ghost variable
 	Guard  *Term // the location is part of the footprint only when the guard holds
 	Desc  string
+}
+
+// evalAssignsClause: location sets of an assigns clause (plain, or `like` another contract)
+func (e *Env) evalAssignsClause(cl *Clause) []LocSet {
+	if cl.Like == "" {
+		return e.evalAssigns(cl.Expr)
+	}
+	prog := e.st.ex.prog
+	oc := prog.Contracts[cl.Like]
+	if oc == nil {
+		e.fail(cl.Expr, "assigns like %s: no such contract", cl.Like)
+	}
+	call := cl.Expr.(*ast.CallExpr)
+	bs := []Binder{}
+	if oc.Recv != nil {
+		bs = append(bs, *oc.Recv)
+	}
+	bs = append(bs, oc.Params...)
+	if len(call.Args) != len(bs) {
+		e.fail(cl.Expr, "assigns like %s: %d arguments for %d parameters", cl.Like, len(call.Args), len(bs))
+	}
+	oe := &Env{st: e.st, pkgPath: oc.PkgPath, info: prog.infoFor(oc.PkgPath), vars: map[string]BVal{}, cur: e.cur, old: e.old, ghost: e.ghost, ghost0: e.ghost0, allocLo: e.allocLo}
+	for i, b := range bs {
+		var v Term
+		if isNilExpr(call.Args[i]) {
+			t := e.st.ex.typeOfBinder(oc, b)
+			s := e.u().sortOf(t)
+			e.st.sc.ensureSort(s)
+			v = e.u().zero(s)
+		} else {
+			v = e.eval(call.Args[i])
+		}
+		oe.vars[b.Name] = BVal{Val: v}
+	}
+	var out []LocSet
+	for _, ocl := range oc.Assigns {
+		out = append(out, oe.evalAssignsClause(ocl)...)
+	}
+	return out
 }
 
 func (e *Env) evalAssigns(x ast.Expr) []LocSet {
